@@ -679,6 +679,8 @@ class Evaluator:
             return t[3][1][0], t[4]
         if t[0] == "comp" and t[1] in ("list", "gen") and len(t[3]) >= 1 and not (isinstance(t[2], tuple) and t[2] and t[2][0] == "%payload"):
             return t[2], t[3]
+        if t[0] == "call" and isinstance(t[1], str) and t[1].split(".")[-1] == "product" and len(t[2]) == 1 and dict(t[3]).get("repeat") == const(2) and len(t[3]) == 1:
+            t = ("call", t[1], (t[2][0], t[2][0]), ())
         if t[0] == "call" and isinstance(t[1], str) and t[1].split(".")[-1] == "product" and not t[3] and len(t[2]) >= 2:
             # for a, b in product(A, B)  =  for a in A: for b in B
             vs = tuple(("var", f"%prod{i}_") for i in range(len(t[2])))
@@ -1664,8 +1666,10 @@ class Evaluator:
             pat = self._bind_target(g.target, s)
             self._type_bound(pat, it)
             conds = tuple(self.as_cond(self.eval1(c, s, func)) for c in g.ifs)
+            if it[0] == "call" and isinstance(it[1], str) and it[1].split(".")[-1] == "product" and len(it[2]) == 1 and dict(it[3]).get("repeat") == const(2) and len(it[3]) == 1:
+                it = ("call", it[1], (it[2][0], it[2][0]), ())  # product(A, repeat=2) = product(A, A)
             if (it[0] == "call" and isinstance(it[1], str) and it[1].split(".")[-1] == "product" and not it[3] and pat[0] == "tuplelit"
-                    and len(pat[1]) == len(it[2]) >= 2 and all(x[0] == "var" for x in pat[1])):
+                    and len(pat[1]) == len(it[2]) >= 2 and all(x[0] in ("var", "tuplelit") for x in pat[1])):
                 # for a, b in product(A, B)  =  for a in A for b in B
                 for x, src in zip(pat[1][:-1], it[2][:-1]):
                     gens.append((x, src, ()))
@@ -1780,7 +1784,8 @@ class Evaluator:
                         if n is not None and n in state.env and state.env[n] == kw.get(prm):
                             # the primitive modifies this argument in place and returns it: the caller's variable now names that result
                             s2 = state.fork()
-                            s2.env[n] = t
+                            k = self.__dict__.get("_inplace_comp", {}).get(r.qname)
+                            s2.env[n] = t if k is None else ("index", t, const(k))
                             return [(s2, t)]
                     return [(state, t)]
                 return self.inline(r, args, kwargs, state, func, line, call_ast=e)
@@ -2011,8 +2016,35 @@ class Evaluator:
         a = r.node.args
         params = {x.arg for x in a.posonlyargs + a.args + a.kwonlyargs}
         rets = [n for n in ast.walk(r.node) if isinstance(n, ast.Return)]
-        names = {n.value.id if isinstance(n.value, ast.Name) else None for n in rets}
-        if rets and len(names) == 1 and None not in names and next(iter(names)) in params \
+        comp_cache = self.__dict__.setdefault("_inplace_comp", {})
+        comp_cache[r.qname] = None
+
+        via_callee = [False]
+
+        def ret_name(n):
+            v = n.value
+            if isinstance(v, ast.Name):
+                return v.id, None
+            if isinstance(v, ast.Tuple) and v.elts and isinstance(v.elts[0], ast.Name):
+                return v.elts[0].id, 0  # `return graph, removed`: the modified argument comes back as the first component
+            if isinstance(v, ast.Call) and isinstance(v.func, ast.Name):
+                # `return helper(graph, ...)` where the helper modifies and returns that argument
+                g = self.model.resolve_name(r.module, v.func.id)
+                if isinstance(g, Func) and g.qname != r.qname and g.cls is None and len(self.stack) < self.max_depth:
+                    cache[r.qname] = None  # guard against mutual recursion
+                    gp = self._inplace_param(g)
+                    if gp is not None:
+                        nm = self._actual_names(g, v, False).get(gp)
+                        if nm is not None:
+                            via_callee[0] = True
+                            return nm, self.__dict__.get("_inplace_comp", {}).get(g.qname)
+            return None, None
+
+        pairs = {ret_name(n) for n in rets}
+        names = {p_[0] for p_ in pairs}
+        if rets and len(pairs) == 1:
+            comp_cache[r.qname] = next(iter(pairs))[1]
+        if rets and len(pairs) == 1 and None not in names and next(iter(names)) in params \
                 and not any(isinstance(n, (ast.FunctionDef, ast.Lambda)) and n is not r.node for n in ast.walk(r.node)):
             prm = next(iter(names))
             rebound = any(isinstance(n, ast.Name) and n.id == prm and isinstance(n.ctx, ast.Store) for n in ast.walk(r.node))
@@ -2023,7 +2055,7 @@ class Evaluator:
                 if isinstance(n, ast.Call) and isinstance(n.func, ast.Attribute) and isinstance(n.func.value, ast.Name) and n.func.value.id == prm \
                         and n.func.attr in MUTATORS:
                     mutated = True
-            if mutated and not rebound:
+            if (mutated or via_callee[0]) and not rebound:
                 res = prm
         cache[r.qname] = res
         return res
@@ -2041,9 +2073,16 @@ class Evaluator:
             return self._modified_in_place(final[2], initial, depth + 1) and self._modified_in_place(final[3], initial, depth + 1)
         if h == "after-iteration":
             return self._modified_in_place(final[1], initial, depth + 1)
+        if h == "index" and final[2] == const(0) and final[1][0] == "call":
+            r0 = self.model.functions.get(final[1][1]) if isinstance(final[1][1], str) else None
+            if r0 is not None and self._inplace_param(r0) is not None and self.__dict__.get("_inplace_comp", {}).get(r0.qname) == 0:
+                kw0 = dict(final[1][3])
+                prm0 = self._inplace_param(r0)
+                if prm0 in kw0:
+                    return self._modified_in_place(kw0[prm0], initial, depth + 1)
         if h == "call" and isinstance(final[1], str) and not final[2]:
             r = self.model.functions.get(final[1])
-            if r is not None:
+            if r is not None and self.__dict__.get("_inplace_comp", {}).get(final[1]) is None:
                 prm = self._inplace_param(r)
                 if prm is not None:
                     kw = dict(final[3])
